@@ -790,6 +790,11 @@ def run(ctx, res):
     run_synteny(ctx, res)
     run_malformed(ctx, res)
     run_render(ctx, res)
+    # the drawing model (Model/TikzDraw.lean: _tikz_draw_fork / _tikz_draw_branches / render's species loop):
+    # real layout -> model call sequence and text, compared byte for byte (lazy import: c15_draw imports c13-c15)
+    from harness.checks import c15_draw
+
+    c15_draw.run_draw(ctx, res)
 
 
 def replay(ctx, data):
